@@ -88,6 +88,8 @@ func JS(ops []Op) string {
 		case "mutprops":
 			// overwrite every scalar reachable from the properties with a string (a value every container type takes)
 			b.WriteString("(function(p) { function m(o) { if (o && typeof o === 'object') { if (o.length !== undefined) { for (var i = 0; i < o.length; i++) { if (o[i] && typeof o[i] === 'object') { m(o[i]); } else { o[i] = 'mut'; } } } else { for (var k in o) { if (o[k] && typeof o[k] === 'object') { m(o[k]); } else if (k !== 'ctx') { o[k] = 'mut'; } } } } } m(p); })(_.props);\n")
+		case "propcount":
+			fmt.Fprintf(&b, "_.props.visits__ = (_.props.visits__ || 0) + 1; _.bindings[%s] = _.props.visits__;\n", js(o.K))
 		case "fresh":
 			fmt.Fprintf(&b, "return %s;\n", js(o.V))
 		case "retnull":
@@ -186,6 +188,8 @@ func Native(ops []Op, partial, inplace bool) func(context.Context, match.Binding
 				}
 			case "delall":
 				cur = match.Bindings{}
+			case "propcount":
+				cur[o.K] = float64(1)
 			case "fresh":
 				exe.Bs = match.Bindings(enc.DeepCopy(o.V).(map[string]interface{}))
 				return exe, nil
@@ -299,7 +303,7 @@ func EncOps(ops []Op) interface{} {
 			a = append(a, T{"nullif", o.K, enc.V(o.V)})
 		case "setfrom":
 			a = append(a, T{"setfrom", o.K, o.K2})
-		case "del", "mutnested":
+		case "del", "mutnested", "propcount":
 			a = append(a, T{o.Name, o.K})
 		case "fresh":
 			a = append(a, T{"fresh", enc.Bs(match.Bindings(o.V.(map[string]interface{})))})
@@ -382,7 +386,7 @@ func DecOps(x interface{}) []Op {
 		switch op.Name {
 		case "emit":
 			op.V = enc.D(o[1])
-		case "emitb", "del", "mutnested":
+		case "emitb", "del", "mutnested", "propcount":
 			op.K = o[1].(string)
 		case "set", "nullif":
 			op.K, op.V = o[1].(string), enc.D(o[2])
